@@ -3382,8 +3382,19 @@ impl SctpInner {
         // 3. Send New Data - batch drain outbound queue under one lock
         let mut new_data_sent = false;
         {
-            let available =
-                effective_window.saturating_sub(self.flight_size.load(Ordering::Relaxed));
+            // New DATA needs the peer's verification tag and an agreed TSN space: before our
+            // INIT / INIT ACK exchange has produced them a chunk would leave with tag 0 and a
+            // TSN the handshake is about to replace, and would be acknowledged-then-forgotten.
+            // The initiating side may send once the peer's INIT ACK has been processed (RFC 4960
+            // 5.1 lets DATA travel with or after the COOKIE ECHO); the responding side only once
+            // the COOKIE ECHO has been accepted.
+            let may_send_data = *self.state.lock() == SctpState::Connected
+                || (self.is_client && self.remote_verification_tag.load(Ordering::SeqCst) != 0);
+            let available = if may_send_data {
+                effective_window.saturating_sub(self.flight_size.load(Ordering::Relaxed))
+            } else {
+                0
+            };
             let mut budget = available;
             let mut batch: Vec<OutboundChunk> = Vec::new();
             let mut dequeued_bytes = 0usize;
